@@ -97,6 +97,14 @@ def special_inputs():
         named = f"struct Sn{k} {{ " + ", ".join(f"{f}: {tys[(j * 7 + k) % len(tys)]}" for j, f in enumerate(fields)) + " }"
         for d in ("Debug", "Constructor", "From", "Into", "Add", "Mul", "AddAssign", "Not", "Sum"):
             out.append((d, named))
+    # degenerate items (no variants, no fields): arithmetic on counts (`len() - 1`) behaves differently with and without overflow
+    # checks - the last process runs the harness built without them
+    for d in ("Add", "Sub", "BitOr", "Mul", "Not", "Neg", "From", "TryInto", "IsVariant", "Unwrap", "TryUnwrap", "Display", "Debug", "FromStr", "Error", "TryFrom"):
+        out.append((d, "#[try_from(repr)] enum Never {}" if d == "TryFrom" else "enum Never {}"))
+    for d in ("Add", "Mul", "Not", "AddAssign", "MulAssign", "Sum", "Product", "Constructor", "From", "Into", "Debug", "Display", "Error"):
+        out.append((d, "struct Nothing;"))
+        out.append((d, "struct Nil();"))
+        out.append((d, "struct Nul {}"))
     # DIFFERENT items with the SAME NAME (and, each being parsed on its own, the same line and column): a table kept per item name
     # or per source position across expansions answers for the wrong item
     same = ["enum Same { Int(i64), Str(String) }", "enum Same { Str(String), Int(i64), More(u8) }", "enum Same { Unit, Other }",
